@@ -41,6 +41,16 @@ Definition set_blk (st : store) (b : blockid) (c : list N) : store :=
 Definition set_data (st : store) (o : objid) (r : bufobj) (d : list N) : store :=
   mkstore (upd (objs st) o (Some (mkbuf (m_chars r) (m_size r) d))) (hp st).
 
+(* FRAME: close  forall o', ~ In o' targets -> objs st' o' = objs st o'  when st' is an explicit
+   tower of updates over st at keys that all occur in `targets` *)
+Ltac frame_tac :=
+  let o' := fresh "o'" in let N := fresh "N" in let E := fresh "E" in
+  intros o' N;
+  repeat match goal with x := _ : store |- _ => subst x end;
+  cbn [objs hp]; unfold set_blk, set_data; cbn [objs hp];
+  repeat (rewrite upd_other by (intro E; apply N; rewrite E; simpl; auto));
+  reflexivity.
+
 Lemma peek_heap st b c n :
   blocks (hp st) b = Some c -> n <= length c -> peek_range (PHeap b) n st = (Ok (firstn n c), st).
 Proof.
@@ -173,9 +183,10 @@ Proof. intros I Ho Hp Hne Ho' Hp' ->. apply Hne. eapply (inv_uniq _ _ I); eauto.
 (* ---------- buffer() ---------- *)
 Theorem ctor_default_ok st s o :
   Inv st -> Rel st s -> objs st o = None ->
-  exists st', ctor_default L o st = (Ok tt, st') /\ Inv st' /\ Rel st' (spec_bop s (BDef o)).
+  exists st', ctor_default L o st = (Ok tt, st') /\ Inv st' /\ Rel st' (spec_bop s (BDef o)) /\
+              (forall o', ~ In o' [o] -> objs st' o' = objs st o').
 Proof.
-  intros I R Hd. eexists. split; [reflexivity|]. split.
+  intros I R Hd. eexists. split; [reflexivity|]. split; [|split].
   - apply inv_set_short; auto.
     + intros r H. congruence.
     + apply zeros_length.
@@ -183,6 +194,7 @@ Proof.
   - simpl. unfold sset. eapply rel_update; eauto; simpl.
     + intros o' Hne. apply upd_other; auto.
     + rewrite upd_same. reflexivity.
+  - frame_tac.
 Qed.
 
 
@@ -201,7 +213,8 @@ Lemma copy_body_ok st s this c vc cur :
   (forall r, objs st this = Some r -> m_size r < L) ->
   (exists oc, oc <> this /\ objs st oc = Some c /\ s oc = Some vc) ->
   length (m_data cur) = L ->
-  exists st', copy_body L this c cur st = (Ok tt, st') /\ Inv st' /\ Rel st' (upd s this (Some vc)).
+  exists st', copy_body L this c cur st = (Ok tt, st') /\ Inv st' /\ Rel st' (upd s this (Some vc)) /\
+              (forall o', ~ In o' [this] -> objs st' o' = objs st o').
 Proof.
   intros I R Hshort (oc & Hne & Hoc & Hsc) Hcur. unfold copy_body, is_reffed.
   destruct (Nat.leb_spec L (m_size c)) as [Hlong|Hsh].
@@ -222,7 +235,7 @@ Proof.
     assert (Hfirst : firstn (m_size c) c2 = firstn (m_size c) cc).
     { unfold c2. rewrite firstn_set_nth_ge by lia. unfold c1.
       rewrite firstn_app_exact; [apply firstn_firstn_same|]. rewrite !firstn_length. lia. }
-    eexists. split; [reflexivity|]. split.
+    eexists. split; [reflexivity|]. split; [|split].
     + eapply Inv_ext; [| | | |
         apply (inv_set_long L Lpos st this (m_data cur) (m_size c) (nextb (hp st)) c2 I Hshort Hfresh Hunref Hcur Hlong Hc2)].
       * intros o. reflexivity.
@@ -237,14 +250,16 @@ Proof.
       * rewrite upd_same. destruct vc as [l|]; auto.
         unfold contents; simpl. rewrite upd_same. fold c1. fold c2. rewrite Hfirst.
         pose proof (rel_val _ _ _ _ _ R Hoc Hsc) as V. unfold contents in V. rewrite Hp, Hb in V. exact V.
+    + frame_tac.
   - (* short source: copy the in-object array *)
     destruct (short_local _ _ _ _ I Hoc Hsh) as (Hp & Ht & Hlen).
-    eexists. split; [reflexivity|]. split.
+    eexists. split; [reflexivity|]. split; [|split].
     + apply inv_set_short; auto.
     + eapply rel_update; eauto; simpl.
       * intros o' Hne'. apply upd_other; auto.
       * rewrite upd_same. destruct vc as [l|]; auto. unfold contents; simpl.
         pose proof (rel_val _ _ _ _ _ R Hoc Hsc) as V. unfold contents in V. rewrite Hp in V. exact V.
+    + frame_tac.
 Qed.
 
 Lemma Rel_ext st s s' : (forall o, s' o = s o) -> Rel st s -> Rel st s'.
@@ -253,18 +268,20 @@ Proof. intros E R o. rewrite E. apply R. Qed.
 (* ---------- buffer(const buffer &) ---------- *)
 Theorem ctor_copy_ok st s o src :
   Inv st -> Rel st s -> objs st o = None -> objs st src <> None ->
-  exists st', ctor_copy L o src st = (Ok tt, st') /\ Inv st' /\ Rel st' (spec_bop s (BCopy o src)).
+  exists st', ctor_copy L o src st = (Ok tt, st') /\ Inv st' /\ Rel st' (spec_bop s (BCopy o src)) /\
+              (forall o', ~ In o' [o] -> objs st' o' = objs st o').
 Proof.
   intros I R Hd Hs. destruct (objs st src) as [c|] eqn:Hc; [|congruence].
   assert (Hne : src <> o) by (intros ->; congruence).
   destruct (s src) as [vc|] eqn:Hv.
   2:{ exfalso. apply (rel_live _ _ src R) in Hv. congruence. }
   unfold ctor_copy. step ltac:(apply get_obj_ok; exact Hc).
-  destruct (copy_body_ok st s o c vc (mkbuf PNull 0 (repeat junk L)) I R) as (st' & E & I' & R').
+  destruct (copy_body_ok st s o c vc (mkbuf PNull 0 (repeat junk L)) I R) as (st' & E & I' & R' & F').
   - intros r H. congruence.
   - exists src. auto.
   - simpl. apply repeat_length.
-  - exists st'. split; [exact E|]. split; [exact I'|]. simpl. unfold sset, sget. rewrite Hv. exact R'.
+  - exists st'. split; [exact E|]. split; [exact I'|]. split; [|exact F'].
+    simpl. unfold sset, sget. rewrite Hv. exact R'.
 Qed.
 
 (* ---------- general: move the block of a long object into a dead slot ---------- *)
@@ -304,7 +321,8 @@ Qed.
 (* ---------- buffer(buffer &&) ---------- *)
 Theorem ctor_move_ok st s o src :
   Inv st -> Rel st s -> objs st o = None -> objs st src <> None ->
-  exists st', ctor_move L o src st = (Ok tt, st') /\ Inv st' /\ Rel st' (spec_bop s (BMove o src)).
+  exists st', ctor_move L o src st = (Ok tt, st') /\ Inv st' /\ Rel st' (spec_bop s (BMove o src)) /\
+              (forall o', ~ In o' [o; src] -> objs st' o' = objs st o').
 Proof.
   intros I R Hd Hs. destruct (objs st src) as [c|] eqn:Hc; [|congruence].
   assert (Hne : src <> o) by (intros ->; congruence).
@@ -315,7 +333,7 @@ Proof.
   assert (Hlen : length (m_data c) = L) by (destruct (inv_wf _ _ I _ _ Hc) as (A & _); exact A).
   destruct (Nat.leb_spec L (m_size c)) as [Hlong|Hsh].
   - destruct (reffed_heap _ _ _ _ I Hc Hlong) as (b & cc & Hp & Hb & Hcl & Ht).
-    split.
+    split; [|split].
     + rewrite Hp. apply inv_transfer; auto.
     + simpl. unfold sset, sget. rewrite Hv.
       set (st1 := mkstore (upd (objs st) o (Some (mkbuf (PHeap b) (m_size c) (m_data c)))) (hp st)).
@@ -330,8 +348,9 @@ Proof.
       * intros o' N. apply upd_other; auto.
       * intros o' r N H. reflexivity.
       * rewrite upd_same. exact Logic.I.
+    + frame_tac.
   - destruct (short_local _ _ _ _ I Hc Hsh) as (Hp & Ht & _).
-    split.
+    split; [|split].
     + set (st1 := mkstore (upd (objs st) o (Some (mkbuf (PLocal o) (m_size c) (m_data c)))) (hp st)).
       change (Inv (mkstore (upd (objs st1) src (Some (mkbuf (PLocal src) 0 (zeros L)))) (hp st1))).
       apply inv_set_short; auto.
@@ -351,6 +370,7 @@ Proof.
       * intros o' N. apply upd_other; auto.
       * intros o' r N H. reflexivity.
       * rewrite upd_same. exact Logic.I.
+    + frame_tac.
 Qed.
 
 (* pointwise collapse of repeated updates, used with Inv_ext *)
@@ -360,7 +380,8 @@ Proof. intros x. apply upd_upd. Qed.
 (* ---------- buffer(const char_T *, size_t) ---------- *)
 Theorem ctor_ptr_ok st s o d :
   Inv st -> Rel st s -> objs st o = None ->
-  exists st', ctor_ptr L o (Some d) (length d) st = (Ok tt, st') /\ Inv st' /\ Rel st' (spec_bop s (BNew o d)).
+  exists st', ctor_ptr L o (Some d) (length d) st = (Ok tt, st') /\ Inv st' /\ Rel st' (spec_bop s (BNew o d)) /\
+              (forall o', ~ In o' [o] -> objs st' o' = objs st o').
 Proof.
   intros I R Hd. unfold ctor_ptr. cbn [negb].
   destruct (Nat.leb_spec L (length d)) as [Hlong|Hsh].
@@ -377,7 +398,7 @@ Proof.
     assert (Hfirst : firstn (length d) c2 = d).
     { unfold c2. rewrite firstn_set_nth_ge by lia. unfold c1. rewrite firstn_all.
       apply firstn_app_exact. reflexivity. }
-    split.
+    split; [|split].
     + eapply Inv_ext; [| | | |
         apply (inv_set_long L Lpos st o (zeros L) (length d) (nextb (hp st)) c2 I)]; auto.
       * intros b0. cbn. rewrite !upd_upd. reflexivity.
@@ -391,6 +412,7 @@ Proof.
       * intros o' r' N Ho'. apply contents_frame. cbn. intros b0 Hp0. rewrite !upd_upd.
         apply upd_other. intros ->. eapply Hunref; eauto.
       * rewrite upd_same. unfold contents; cbn. rewrite upd_same. exact Hfirst.
+    + frame_tac.
   - unfold ret at 1. unfold mbind at 1.
     unfold set_obj at 1. unfold mbind at 1. cbn [objs hp].
     set (st1 := mkstore (upd (objs st) o (Some (mkbuf (PLocal o) (length d) (zeros L)))) (hp st)).
@@ -402,7 +424,7 @@ Proof.
     eexists. split.
     { eapply (poke_local _ o (mkbuf (PLocal o) (length d) d1)); [cbn; apply upd_same | cbn; lia]. }
     set (d2 := set_nth d1 (length d) 0%N).
-    split.
+    split; [|split].
     + eapply Inv_ext; [| | | | apply (inv_set_short L Lpos st o d2 (length d) I)]; auto.
       * intros o0. cbn. rewrite !upd_upd. reflexivity.
       * intros r H; congruence.
@@ -413,12 +435,14 @@ Proof.
       * intros o' r' N Ho'. reflexivity.
       * rewrite upd_same. unfold contents; cbn. fold d1. fold d2. unfold d2.
         rewrite firstn_set_nth_ge by lia. unfold d1. rewrite firstn_all. apply firstn_app_exact. reflexivity.
+    + frame_tac.
 Qed.
 
 (* ---------- buffer(nullptr, 0) ---------- *)
 Theorem ctor_null_ok st s o :
   Inv st -> Rel st s -> objs st o = None ->
-  exists st', ctor_ptr L o None 0 st = (Ok tt, st') /\ Inv st' /\ Rel st' (spec_bop s (BNewNull o 0)).
+  exists st', ctor_ptr L o None 0 st = (Ok tt, st') /\ Inv st' /\ Rel st' (spec_bop s (BNewNull o 0)) /\
+              (forall o', ~ In o' [o] -> objs st' o' = objs st o').
 Proof.
   intros I R Hd. unfold ctor_ptr. cbn [negb Nat.eqb].
   replace (Nat.leb L 0) with false by (symmetry; apply Nat.leb_gt; lia).
@@ -428,7 +452,7 @@ Proof.
   set (st1 := mkstore (upd (objs st) o (Some (mkbuf (PLocal o) 0 (zeros L)))) (hp st)).
   eexists. split.
   { eapply (poke_local st1 o (mkbuf (PLocal o) 0 (zeros L))); [cbn; apply upd_same | cbn; rewrite zeros_length; lia]. }
-  split.
+  split; [|split].
   - eapply Inv_ext; [| | | | apply (inv_set_short L Lpos st o (set_nth (zeros L) 0 0%N) 0 I)]; auto.
     + intros o0. cbn. rewrite !upd_upd. reflexivity.
     + intros r H; congruence.
@@ -438,12 +462,14 @@ Proof.
     + intros o' N. rewrite !upd_other by exact N. reflexivity.
     + intros o' r' N Ho'. reflexivity.
     + rewrite upd_same. reflexivity.
+  - frame_tac.
 Qed.
 
 (* ---------- buffer(size_t count, char_T fill) ---------- *)
 Theorem ctor_fill_ok st s o n v :
   Inv st -> Rel st s -> objs st o = None ->
-  exists st', ctor_fill L o n v st = (Ok tt, st') /\ Inv st' /\ Rel st' (spec_bop s (BFill o n v)).
+  exists st', ctor_fill L o n v st = (Ok tt, st') /\ Inv st' /\ Rel st' (spec_bop s (BFill o n v)) /\
+              (forall o', ~ In o' [o] -> objs st' o' = objs st o').
 Proof.
   intros I R Hd. unfold ctor_fill.
   destruct (Nat.leb_spec L n) as [Hlong|Hsh].
@@ -459,7 +485,7 @@ Proof.
     assert (Hc2 : length c2 = n + 1) by (unfold c2; rewrite set_nth_length; exact Hc1).
     assert (Hfirst : firstn n c2 = repeat v n).
     { unfold c2. rewrite firstn_set_nth_ge by lia. unfold c1. apply firstn_app_exact. apply repeat_length. }
-    split.
+    split; [|split].
     + eapply Inv_ext; [| | | |
         apply (inv_set_long L Lpos st o (zeros L) n (nextb (hp st)) c2 I)]; auto.
       * intros b0. cbn. rewrite !upd_upd. reflexivity.
@@ -473,6 +499,7 @@ Proof.
       * intros o' r' N Ho'. apply contents_frame. cbn. intros b0 Hp0. rewrite !upd_upd.
         apply upd_other. intros ->. eapply Hunref; eauto.
       * rewrite upd_same. unfold contents; cbn. rewrite upd_same. exact Hfirst.
+    + frame_tac.
   - unfold ret at 1. unfold mbind at 1.
     unfold set_obj at 1. unfold mbind at 1. cbn [objs hp].
     set (st1 := mkstore (upd (objs st) o (Some (mkbuf (PLocal o) n (zeros L)))) (hp st)).
@@ -484,7 +511,7 @@ Proof.
     eexists. split.
     { eapply (poke_local _ o (mkbuf (PLocal o) n d1)); [cbn; apply upd_same | cbn; lia]. }
     set (d2 := set_nth d1 n 0%N).
-    split.
+    split; [|split].
     + eapply Inv_ext; [| | | | apply (inv_set_short L Lpos st o d2 n I)]; auto.
       * intros o0. cbn. rewrite !upd_upd. reflexivity.
       * intros r H; congruence.
@@ -495,20 +522,22 @@ Proof.
       * intros o' r' N Ho'. reflexivity.
       * rewrite upd_same. unfold contents; cbn. fold d1. fold d2. unfold d2.
         rewrite firstn_set_nth_ge by lia. unfold d1. apply firstn_app_exact. apply repeat_length.
+    + frame_tac.
 Qed.
 
 (* ---------- clear() and ~buffer() ---------- *)
 Theorem clear_ok st s o :
   Inv st -> Rel st s -> objs st o <> None ->
   exists st', clear L o st = (Ok tt, st') /\ Inv st' /\ Rel st' (spec_bop s (BClear o)) /\
-              objs st' o = Some (mkbuf (PLocal o) 0 (zeros L)).
+              objs st' o = Some (mkbuf (PLocal o) 0 (zeros L)) /\
+              (forall o', ~ In o' [o] -> objs st' o' = objs st o').
 Proof.
   intros I R Hl. destruct (objs st o) as [r|] eqn:Ho; [|congruence]. unfold clear.
   step ltac:(apply get_obj_ok; exact Ho). unfold is_reffed.
   destruct (Nat.leb_spec L (m_size r)) as [Hlong|Hsh].
   - destruct (reffed_heap _ _ _ _ I Ho Hlong) as (b & cc & Hp & Hb & Hcl & Ht). rewrite Hp.
     step ltac:(eapply delete_arr_exec; exact Hb).
-    eexists. split; [reflexivity|]. cbn [objs hp]. split; [|split; [|apply upd_same]].
+    eexists. split; [reflexivity|]. cbn [objs hp]. split; [|split; [|split; [apply upd_same|frame_tac]]].
     + eapply inv_release; eauto. apply zeros_length. apply nth_zeros; auto; lia.
     + simpl spec_bop. unfold sset. apply (rel_update st _ s o (Some (Val [])) R); cbn.
       * intros o' N. apply upd_other; auto.
@@ -516,7 +545,7 @@ Proof.
         apply (other_block st o r b o' r' b0 I Ho Hp N Ho' Hp0).
       * rewrite upd_same. reflexivity.
   - unfold ret at 1. unfold mbind at 1.
-    eexists. split; [reflexivity|]. cbn [objs hp]. split; [|split; [|apply upd_same]].
+    eexists. split; [reflexivity|]. cbn [objs hp]. split; [|split; [|split; [apply upd_same|frame_tac]]].
     + apply inv_set_short; auto.
       * intros r' H. rewrite Ho in H. injection H as <-. exact Hsh.
       * apply zeros_length.
@@ -529,14 +558,15 @@ Qed.
 
 Theorem dtor_ok st s o :
   Inv st -> Rel st s -> objs st o <> None ->
-  exists st', dtor L o st = (Ok tt, st') /\ Inv st' /\ Rel st' (spec_bop s (BDel o)).
+  exists st', dtor L o st = (Ok tt, st') /\ Inv st' /\ Rel st' (spec_bop s (BDel o)) /\
+              (forall o', ~ In o' [o] -> objs st' o' = objs st o').
 Proof.
   intros I R Hl. destruct (objs st o) as [r|] eqn:Ho; [|congruence]. unfold dtor.
   step ltac:(apply get_obj_ok; exact Ho). unfold is_reffed.
   destruct (Nat.leb_spec L (m_size r)) as [Hlong|Hsh].
   - destruct (reffed_heap _ _ _ _ I Ho Hlong) as (b & cc & Hp & Hb & Hcl & Ht). rewrite Hp.
     step ltac:(eapply delete_arr_exec; exact Hb).
-    eexists. split; [reflexivity|]. cbn [objs hp]. split.
+    eexists. split; [reflexivity|]. cbn [objs hp]. split; [|split; [|frame_tac]].
     + (* release to a short value, then destroy it *)
       pose proof (inv_release L Lpos st o r b (zeros L) 0 I Ho Hp (zeros_length L)) as I1.
       assert (H0 : 0 < L) by lia. specialize (I1 H0 (nth_zeros L Lpos 0 H0)).
@@ -553,7 +583,7 @@ Proof.
         apply (other_block st o r b o' r' b0 I Ho Hp N Ho' Hp0).
       * rewrite upd_same. exact Logic.I.
   - unfold ret at 1. unfold mbind at 1.
-    eexists. split; [reflexivity|]. cbn [objs hp]. split.
+    eexists. split; [reflexivity|]. cbn [objs hp]. split; [|split; [|frame_tac]].
     + eapply inv_kill_short; eauto.
     + simpl spec_bop. unfold sset. apply (rel_update st _ s o None R); cbn.
       * intros o' N. apply upd_other; auto.
@@ -564,11 +594,13 @@ Qed.
 (* ---------- operator=(const buffer &) ---------- *)
 Theorem assign_copy_ok st s o src :
   Inv st -> Rel st s -> objs st o <> None -> objs st src <> None ->
-  exists st', assign_copy L o src st = (Ok tt, st') /\ Inv st' /\ Rel st' (spec_bop s (BAsg o src)).
+  exists st', assign_copy L o src st = (Ok tt, st') /\ Inv st' /\ Rel st' (spec_bop s (BAsg o src)) /\
+              (forall o', ~ In o' [o] -> objs st' o' = objs st o').
 Proof.
   intros I R Hl Hs. destruct (objs st o) as [r|] eqn:Ho; [|congruence]. unfold assign_copy.
   destruct (Nat.eqb_spec o src) as [->|Hne].
   - step ltac:(apply get_obj_ok; exact Ho). eexists. split; [reflexivity|]. split; [exact I|].
+    split; [|intros o' N; reflexivity].
     simpl. unfold sset, sget. eapply Rel_ext; [|exact R]. intros x. unfold upd.
     destruct (Nat.eqb_spec x src) as [->|]; reflexivity.
   - destruct (objs st src) as [c|] eqn:Hc; [|congruence].
@@ -578,34 +610,38 @@ Proof.
     assert (Hfin : forall st1 s1, Inv st1 -> Rel st1 s1 -> (forall x, x <> o -> s1 x = s x) ->
               (forall r1, objs st1 o = Some r1 -> m_size r1 < L) -> objs st1 o <> None ->
               exists st', (c0 <-- get_obj src ;; cur <-- get_obj o ;; copy_body L o c0 cur) st1 = (Ok tt, st') /\
-                          Inv st' /\ Rel st' (upd s o (Some vc))).
+                          Inv st' /\ Rel st' (upd s o (Some vc)) /\
+                          (forall o', ~ In o' [o] -> objs st' o' = objs st1 o')).
     { intros st1 s1 I1 R1 Hs1 Hsh1 Hl1.
       assert (Hv1 : s1 src = Some vc) by (rewrite Hs1; auto).
       destruct (objs st1 src) as [c1|] eqn:Hc1.
       2:{ exfalso. apply (rel_live _ _ src R1) in Hc1. congruence. }
       destruct (objs st1 o) as [cur|] eqn:Hcur; [|congruence].
       step ltac:(apply get_obj_ok; exact Hc1). step ltac:(apply get_obj_ok; exact Hcur).
-      destruct (copy_body_ok st1 s1 o c1 vc cur I1 R1) as (st' & E & I' & R').
+      destruct (copy_body_ok st1 s1 o c1 vc cur I1 R1) as (st' & E & I' & R' & F').
       - intros r1 H. apply Hsh1. congruence.
       - exists src. auto.
       - destruct (inv_wf _ _ I1 _ _ Hcur) as (A & _). exact A.
-      - exists st'. split; [exact E|]. split; [exact I'|].
+      - exists st'. split; [exact E|]. split; [exact I'|]. split; [|exact F'].
         eapply Rel_ext; [|exact R']. intros x. unfold upd.
         destruct (Nat.eqb_spec x o) as [->|N]; [reflexivity|]. symmetry. apply Hs1. exact N. }
     destruct (Nat.leb_spec L (m_size r)) as [Hlong|Hsh].
-    + destruct (clear_ok st s o I R) as (st1 & E1 & I1 & R1 & O1); [congruence|].
+    + destruct (clear_ok st s o I R) as (st1 & E1 & I1 & R1 & O1 & F1); [congruence|].
       step ltac:(exact E1).
-      destruct (Hfin st1 _ I1 R1) as (st' & E & I' & R').
+      destruct (Hfin st1 _ I1 R1) as (st' & E & I' & R' & F').
       * intros x N. simpl. unfold sset. apply upd_other. exact N.
       * intros r1 H. rewrite O1 in H. injection H as <-. simpl. lia.
       * rewrite O1. discriminate.
-      * exists st'. split; [exact E|]. split; [exact I'|]. simpl. unfold sset, sget. rewrite Hv. exact R'.
+      * exists st'. split; [exact E|]. split; [exact I'|]. split.
+        -- simpl. unfold sset, sget. rewrite Hv. exact R'.
+        -- intros o' N. rewrite (F' o' N). apply F1. exact N.
     + unfold ret at 1. unfold mbind at 1.
-      destruct (Hfin st s I R) as (st' & E & I' & R').
+      destruct (Hfin st s I R) as (st' & E & I' & R' & F').
       * intros x N. reflexivity.
       * intros r1 H. rewrite Ho in H. injection H as <-. exact Hsh.
       * congruence.
-      * exists st'. split; [exact E|]. split; [exact I'|]. simpl. unfold sset, sget. rewrite Hv. exact R'.
+      * exists st'. split; [exact E|]. split; [exact I'|]. split; [|exact F'].
+        simpl. unfold sset, sget. rewrite Hv. exact R'.
 Qed.
 
 (* ---------- operator=(buffer &&): complete swap ---------- *)
@@ -681,16 +717,18 @@ Qed.
 
 Theorem assign_move_ok st s o src :
   Inv st -> Rel st s -> objs st o <> None -> objs st src <> None ->
-  exists st', assign_move L o src st = (Ok tt, st') /\ Inv st' /\ Rel st' (spec_bop s (BMasg o src)).
+  exists st', assign_move L o src st = (Ok tt, st') /\ Inv st' /\ Rel st' (spec_bop s (BMasg o src)) /\
+              (forall o', ~ In o' [o; src] -> objs st' o' = objs st o').
 Proof.
   intros I R Hl Hs. destruct (objs st o) as [a|] eqn:Ha; [|congruence]. unfold assign_move. simpl spec_bop.
   destruct (Nat.eqb_spec o src) as [->|Hne].
-  - step ltac:(apply get_obj_ok; exact Ha). eexists. split; [reflexivity|]. split; [exact I|exact R].
+  - step ltac:(apply get_obj_ok; exact Ha). eexists. split; [reflexivity|]. split; [exact I|].
+    split; [exact R|intros o' N; reflexivity].
   - destruct (objs st src) as [b|] eqn:Hb; [|congruence].
     destruct (s src) as [vb|] eqn:Hv.
     2:{ exfalso. apply (rel_live _ _ src R) in Hv. congruence. }
     step ltac:(apply get_obj_ok; exact Ha). step ltac:(apply get_obj_ok; exact Hb).
-    eexists. split; [reflexivity|]. cbn [objs hp]. split.
+    eexists. split; [reflexivity|]. cbn [objs hp]. split; [|split; [|frame_tac]].
     + apply (inv_swap st o src a b I Hne Ha Hb).
     + unfold sset, sget. rewrite Hv.
       set (st1 := mkstore (upd (objs st) o (Some (swapped o b))) (hp st)).
@@ -711,7 +749,8 @@ Qed.
 Theorem allocate_ok st s o n :
   Inv st -> Rel st s -> objs st o <> None ->
   exists st', allocate L o n st = (Ok tt, st') /\ Inv st' /\ Rel st' (upd s o (Some Unspecified)) /\
-              exists r', objs st' o = Some r' /\ m_size r' = n.
+              (exists r', objs st' o = Some r' /\ m_size r' = n) /\
+              (forall o', ~ In o' [o] -> objs st' o' = objs st o').
 Proof.
   intros I R Hl. destruct (objs st o) as [r|] eqn:Ho; [|congruence]. unfold allocate.
   step ltac:(apply get_obj_ok; exact Ho). unfold is_reffed.
@@ -746,7 +785,7 @@ Proof.
         + inj H. discriminate.
         + eapply Hunref; eauto.
       - unfold c2. apply nth_set_same. rewrite repeat_length. lia. }
-    split; [|split].
+    split; [|split; [|split; [|frame_tac]]].
     + eapply Inv_ext; [| | | | exact I2].
       * intros o0. cbn. rewrite !upd_upd. reflexivity.
       * intros b0. cbn. unfold upd.
@@ -773,7 +812,7 @@ Proof.
     { eapply poke_heap; [cbn [hp blocks]; apply upd_same | rewrite repeat_length; lia]. }
     set (c2 := set_nth (repeat junk (n + 1)) n 0%N).
     assert (Hc2 : length c2 = n + 1) by (unfold c2; rewrite set_nth_length, repeat_length; reflexivity).
-    split; [|split].
+    split; [|split; [|split; [|frame_tac]]].
     + eapply Inv_ext; [| | | | apply (inv_set_long L Lpos st o (zeros L) n (nextb (hp st)) c2 I)]; auto.
       * intros o0. cbn. rewrite !upd_upd. reflexivity.
       * intros b0. cbn. rewrite !upd_upd. reflexivity.
@@ -796,7 +835,7 @@ Proof.
     unfold set_obj at 1. unfold mbind at 1. cbn [objs hp].
     eexists. split.
     { eapply (poke_local _ o (mkbuf (PLocal o) n (m_data r))); [cbn; apply upd_same | cbn; lia]. }
-    split; [|split].
+    split; [|split; [|split; [|frame_tac]]].
     + eapply Inv_ext; [| | | | apply (inv_release L Lpos st o r b (set_nth (m_data r) n 0%N) n I Ho Hp)]; auto.
       * intros o0. cbn. rewrite !upd_upd. reflexivity.
       * rewrite set_nth_length. exact HdL.
@@ -815,7 +854,7 @@ Proof.
     unfold set_obj at 1. unfold mbind at 1. cbn [objs hp m_data].
     eexists. split.
     { eapply (poke_local _ o (mkbuf (PLocal o) n (zeros L))); [cbn; apply upd_same | cbn; rewrite zeros_length; lia]. }
-    split; [|split].
+    split; [|split; [|split; [|frame_tac]]].
     + eapply Inv_ext; [| | | | apply (inv_set_short L Lpos st o (set_nth (zeros L) n 0%N) n I)]; auto.
       * intros o0. cbn. rewrite !upd_upd. reflexivity.
       * intros r1 H. rewrite Ho in H. injection H as <-. exact Hrs.
@@ -832,7 +871,8 @@ Qed.
 Theorem fill_ok st s o r v :
   Inv st -> Rel st s -> objs st o = Some r ->
   exists st', fill_range (m_chars r) (m_size r) v st = (Ok tt, st') /\ Inv st' /\
-              Rel st' (upd s o (Some (Val (repeat v (m_size r))))).
+              Rel st' (upd s o (Some (Val (repeat v (m_size r))))) /\
+              (forall o', ~ In o' [o] -> objs st' o' = objs st o').
 Proof.
   intros I R Ho.
   destruct (Nat.leb_spec L (m_size r)) as [Hl|Hs].
@@ -846,7 +886,7 @@ Proof.
       rewrite <- Ht. rewrite <- (firstn_skipn (m_size r) cc) at 2.
       rewrite app_nth2 by (rewrite firstn_length; lia). rewrite firstn_length.
       replace (m_size r - Nat.min (m_size r) (length cc)) with 0 by lia. reflexivity. }
-    split.
+    split; [|split; [|frame_tac]].
     + apply (inv_set_cells L st o r b c1 I Ho Hl Hp Hc1 Ht1).
     + apply (rel_update st _ s o (Some (Val (repeat v (m_size r)))) R); cbn.
       * intros o' N. reflexivity.
@@ -864,7 +904,7 @@ Proof.
       rewrite <- Ht. rewrite <- (firstn_skipn (m_size r) (m_data r)) at 2.
       rewrite app_nth2 by (rewrite firstn_length; lia). rewrite firstn_length.
       replace (m_size r - Nat.min (m_size r) (length (m_data r))) with 0 by lia. reflexivity. }
-    unfold set_data. rewrite Hp. split.
+    unfold set_data. rewrite Hp. split; [|split; [|frame_tac]].
     + apply inv_set_short; auto. intros r1 H. rewrite Ho in H. injection H as <-. exact Hs.
     + apply (rel_update st _ s o (Some (Val (repeat v (m_size r)))) R); cbn.
       * intros o' N. apply upd_other; auto.
@@ -876,7 +916,8 @@ Qed.
 (* ---------- data()[i] = v with i < size() ---------- *)
 Theorem user_write_ok st s o i v :
   Inv st -> Rel st s -> objs st o <> None ->
-  exists st', user_write o i v st = (Ok tt, st') /\ Inv st' /\ Rel st' (spec_bop s (BWrite o i v)).
+  exists st', user_write o i v st = (Ok tt, st') /\ Inv st' /\ Rel st' (spec_bop s (BWrite o i v)) /\
+              (forall o', ~ In o' [o] -> objs st' o' = objs st o').
 Proof.
   intros I R Hl. destruct (objs st o) as [r|] eqn:Ho; [|congruence]. unfold user_write.
   step ltac:(apply get_obj_ok; exact Ho). simpl spec_bop. unfold sget, sset.
@@ -903,7 +944,7 @@ Proof.
         intros x. unfold upd. destruct (Nat.eqb_spec x o) as [->|]; [exact Hv|reflexivity]. }
     destruct (Nat.leb_spec L (m_size r)) as [Hl2|Hs2].
     + destruct (reffed_heap _ _ _ _ I Ho Hl2) as (b & cc & Hp & Hb & Hcl & Ht). rewrite Hp.
-      eexists. split; [eapply poke_heap; [exact Hb|lia]|]. split.
+      eexists. split; [eapply poke_heap; [exact Hb|lia]|]. split; [|split; [|frame_tac]].
       * apply (inv_set_cells L st o r b (set_nth cc i v) I Ho Hl2 Hp).
         -- rewrite set_nth_length. exact Hcl.
         -- rewrite nth_set_other by lia. exact Ht.
@@ -914,7 +955,7 @@ Proof.
         -- exists r. split; [exact Ho|]. unfold contents. rewrite Hp, Hb. cbn. rewrite upd_same.
            apply firstn_set_nth_lt. exact Hi.
     + destruct (short_local _ _ _ _ I Ho Hs2) as (Hp & Ht & HdL). rewrite Hp.
-      eexists. split; [eapply poke_local; [exact Ho|lia]|]. unfold set_data. rewrite Hp. split.
+      eexists. split; [eapply poke_local; [exact Ho|lia]|]. unfold set_data. rewrite Hp. split; [|split; [|frame_tac]].
       * apply inv_set_short; auto.
         -- intros r1 H. rewrite Ho in H. injection H as <-. exact Hs2.
         -- rewrite set_nth_length. exact HdL.
@@ -925,7 +966,7 @@ Proof.
         -- eexists. rewrite upd_same. split; [reflexivity|]. unfold contents. cbn. rewrite Hp.
            apply firstn_set_nth_lt. exact Hi.
   - (* i >= size: the harness never writes; the model does nothing *)
-    eexists. split; [reflexivity|]. split; [exact I|].
+    eexists. split; [reflexivity|]. split; [exact I|]. split; [|intros o' N; reflexivity].
     destruct vo as [l|]; [|exact R].
     pose proof (rel_val _ _ _ _ _ R Ho Hv) as V.
     assert (Hlen : length l = m_size r).
@@ -952,11 +993,37 @@ Definition wf_bop (st : store) (op : bop) : Prop :=
   | BAlloc o _ _ | BAllocFill o _ _ | BWrite o _ _ | BClear o | BDel o => live st o
   end.
 
+(* the objects an operation is allowed to modify; every other object keeps its record
+   (data pointer, size, in-object array) -- the FRAME clause of step_ok *)
+Definition targets (op : bop) : list objid :=
+  match op with
+  | BDef o | BNew o _ | BNewNull o _ | BFill o _ _ | BCopy o _ | BAsg o _
+  | BAlloc o _ _ | BAllocFill o _ _ | BWrite o _ _ | BClear o | BDel o => [o]
+  | BMove o src | BMasg o src => [o; src]
+  end.
+
+(* the SPEC has the same frame: an operation changes the value of its targets only *)
+Lemma spec_bop_other s op x : ~ In x (targets op) -> spec_bop s op x = s x.
+Proof.
+  intros N. destruct op as [o|o d|o n|o n c|o src|o src|o src|o src|o n c|o n c|o i v|o|o];
+    simpl in N; simpl spec_bop; unfold sset, sget;
+    repeat match goal with
+    | |- context [match ?a with _ => _ end] =>
+        match a with
+        | context [upd] => fail 1
+        | _ => destruct a
+        end
+    end;
+    repeat (rewrite upd_other by (intros E; apply N; rewrite E; auto)); reflexivity.
+Qed.
+
 Theorem step_ok st s op :
   Inv st -> Rel st s -> wf_bop st op ->
-  exists st', run_bop L op st = (Ok tt, st') /\ Inv st' /\ Rel st' (spec_bop s op).
+  exists st', run_bop L op st = (Ok tt, st') /\ Inv st' /\ Rel st' (spec_bop s op) /\
+              (forall o', ~ In o' (targets op) -> objs st' o' = objs st o').
 Proof.
-  intros I R W. destruct op as [o|o d|o n|o n c|o src|o src|o src|o src|o n c|o n c|o i v|o|o]; simpl in W; simpl run_bop.
+  intros I R W. destruct op as [o|o d|o n|o n c|o src|o src|o src|o src|o n c|o n c|o i v|o|o];
+    simpl in W; simpl run_bop; simpl targets.
   - apply ctor_default_ok; auto.
   - apply ctor_ptr_ok; auto.
   - destruct W as (W & ->). apply ctor_null_ok; auto.
@@ -965,19 +1032,21 @@ Proof.
   - destruct W. apply ctor_move_ok; auto.
   - destruct W. apply assign_copy_ok; auto.
   - destruct W. apply assign_move_ok; auto.
-  - destruct (allocate_ok st s o n I R W) as (st1 & E1 & I1 & R1 & r1 & O1 & S1).
+  - destruct (allocate_ok st s o n I R W) as (st1 & E1 & I1 & R1 & (r1 & O1 & S1) & F1).
     step ltac:(exact E1). step ltac:(apply get_obj_ok; exact O1).
-    destruct (fill_ok st1 _ o r1 c I1 R1 O1) as (st2 & E2 & I2 & R2). rewrite S1 in E2, R2.
-    exists st2. split; [exact E2|]. split; [exact I2|].
-    eapply Rel_ext; [|exact R2]. intros x. simpl. unfold sset. rewrite upd_upd. reflexivity.
+    destruct (fill_ok st1 _ o r1 c I1 R1 O1) as (st2 & E2 & I2 & R2 & F2). rewrite S1 in E2, R2.
+    exists st2. split; [exact E2|]. split; [exact I2|]. split.
+    + eapply Rel_ext; [|exact R2]. intros x. simpl. unfold sset. rewrite upd_upd. reflexivity.
+    + intros o' N. rewrite (F2 o' N). apply F1. exact N.
   - unfold allocate_fill.
-    destruct (allocate_ok st s o n I R W) as (st1 & E1 & I1 & R1 & r1 & O1 & S1).
+    destruct (allocate_ok st s o n I R W) as (st1 & E1 & I1 & R1 & (r1 & O1 & S1) & F1).
     step ltac:(exact E1). step ltac:(apply get_obj_ok; exact O1).
-    destruct (fill_ok st1 _ o r1 c I1 R1 O1) as (st2 & E2 & I2 & R2). rewrite S1 in E2, R2.
-    exists st2. split; [exact E2|]. split; [exact I2|].
-    eapply Rel_ext; [|exact R2]. intros x. simpl. unfold sset. rewrite upd_upd. reflexivity.
+    destruct (fill_ok st1 _ o r1 c I1 R1 O1) as (st2 & E2 & I2 & R2 & F2). rewrite S1 in E2, R2.
+    exists st2. split; [exact E2|]. split; [exact I2|]. split.
+    + eapply Rel_ext; [|exact R2]. intros x. simpl. unfold sset. rewrite upd_upd. reflexivity.
+    + intros o' N. rewrite (F2 o' N). apply F1. exact N.
   - apply user_write_ok; auto.
-  - destruct (clear_ok st s o I R W) as (st' & E & I' & R' & _). exists st'. auto.
+  - destruct (clear_ok st s o I R W) as (st' & E & I' & R' & _ & F'). exists st'. auto.
   - apply dtor_ok; auto.
 Qed.
 
